@@ -93,11 +93,20 @@ class FixedDate(dt.date):
 
 
 class FixedDateTime(dt.datetime):
+    """dt.datetime whose now() is harness-controlled.  NOW is the naive LOCAL wall-clock time and
+    UTC_OFFSET_H the local zone's offset from UTC in hours: now() returns NOW, now(tz) returns the
+    same instant expressed in tz (so code that asks for UTC gets a different calendar day whenever
+    local date != UTC date, exactly like the real clock)."""
     NOW = dt.datetime(2024, 5, 10, 12, 0, 0)
+    UTC_OFFSET_H = 0
 
     @classmethod
     def now(cls, tz=None):
-        return cls.NOW
+        if tz is None:
+            return cls.NOW
+        # the same instant on tz's wall clock (returned naive: callers only format / subtract days)
+        tz_hours = int(tz.utcoffset(None).total_seconds() // 3600)
+        return cls.NOW - dt.timedelta(hours=cls.UTC_OFFSET_H) + dt.timedelta(hours=tz_hours)
 
 
 class _DtShim:
